@@ -386,8 +386,8 @@ func (t *Typechecker) VisitBinaryExpr(expr *ast.BinaryExpr) ast.VisitResult {
 			t.latestReturnedType = ddptypes.BYTE
 		} else if ddptypes.Equal(lhs, ddptypes.KOMMAZAHL) || ddptypes.Equal(rhs, ddptypes.KOMMAZAHL) {
 			t.latestReturnedType = ddptypes.KOMMAZAHL
-		} else {
-			t.latestReturnedType = ddptypes.BYTE
+		} else { // Zahl and Byte mixed: the Byte is widened
+			t.latestReturnedType = ddptypes.ZAHL
 		}
 	case ast.BIN_INDEX:
 		if !ddptypes.IsList(lhs) && !ddptypes.Equal(lhs, ddptypes.TEXT) {
